@@ -71,7 +71,7 @@ def build_object():
     multi = "/usr/include/x86_64-linux-gnu"
     # build-linux.sh: clang -g -target bpf -Werror -O2 -D__TARGET_ARCH_x86 -c ebpf_cgroup.c
     cmd = ["clang", "-g", "-target", "bpf", "-Werror", "-O2", "-D__TARGET_ARCH_x86", "-I", INC, "-I", multi, "-c", src, "-o", tmp]
-    p = util.sh(cmd, timeout=120, check=False)
+    p = util.sh(cmd, timeout=600, check=False)
     if p.returncode != 0:
         raise util.ToolError("clang -target bpf failed on %s:\n%s" % (src, (p.stdout or "")[-3000:]))
     os.replace(tmp, out)
@@ -590,7 +590,7 @@ def _attach_run(obj, bindir, name):
         inner = ("mount --bind %s %s && umount -R -l /sys/fs/cgroup && exec strace -f -qq -v -s 128 -o %s "
                  "-e trace=bpf,perf_event_open,openat,ioctl,close %s" % (private, cgdir, slog, exe))
         pr = util.sh(["unshare", "-m", "sh", "-c", inner], cwd=d,
-                     env={"VERIF_CMD": "realmaps", "VERIF_SCRIPT": sp, "VERIF_OUT": out, "RUST_BACKTRACE": "0"}, timeout=120, check=False)
+                     env={"VERIF_CMD": "realmaps", "VERIF_SCRIPT": sp, "VERIF_OUT": out, "RUST_BACKTRACE": "0"}, timeout=600, check=False)
         left = _cgroup_progs(private)
     finally:
         try:
@@ -621,9 +621,9 @@ def attach_order(c, label=None):
     {"kind": "diverting-hook-attached-before-publishing-hook"}; evidence in c.extra["realmaps_attach"]."""
     label = label or c.prop.lower()
     tm = util.Timer()
-    c.tlc("Attach", "Attach.cfg", workers=2, timeout=120,
+    c.tlc("Attach", "Attach.cfg", workers=2, timeout=900,
           required_actions=["Attempt", "AttachPublish", "AttachDivert", "DetachAll", "Close", "ClientConnect"])
-    sw = c.tlc("Attach", "Attach_swapped.cfg", workers=2, timeout=120, coverage=False, expect_ok=False)
+    sw = c.tlc("Attach", "Attach_swapped.cfg", workers=2, timeout=900, coverage=False, expect_ok=False)
     if sw.invariant_violated != "NeverDivertUnpublished":
         raise tlcmod.TlcError("mc/Attach_swapped.cfg (divert attached first) was expected to violate NeverDivertUnpublished "
                               "(anti-vacuity of the clause); got %s" % (sw.invariant_violated or sw.error_lines[:2] or "no violation"))
@@ -643,7 +643,7 @@ def attach_order(c, label=None):
     if nattempts < 2 or nattach == 0 or not (info["kprobe_prog_loads"] or info["cgroup_prog_loads"]):
         raise util.ToolError("start-up run: the system-call log shows %d object loads and %d attach attempts -- nothing to judge "
                              "(strace decoding or the start-up path changed): %s" % (nattempts, nattach, info))
-    ok, why, res = validate_trace(c, "AttachTrace", "AttachTrace.cfg", trows, "realmaps_att_%s" % label, count=1, timeout=120)
+    ok, why, res = validate_trace(c, "AttachTrace", "AttachTrace.cfg", trows, "realmaps_att_%s" % label, count=1, timeout=600)
     c.count(n=nattach)
     if ok:
         c.sample({"kind": "start-up rows derived from strace (first attempt)", "rows": trows[:4]})
@@ -653,7 +653,7 @@ def attach_order(c, label=None):
         raise util.ToolError("AttachTrace could not follow the rows derived from the system-call log: %s" % why)
     # believed when it shows again in a second run
     trows2, info2 = _attach_run(obj, bindir, "realmaps_att_%s_rp_%d" % (label, os.getpid()))
-    ok2, why2, _ = validate_trace(c, "AttachTrace", "AttachTrace.cfg", trows2, "realmaps_att_%s_replay" % label, count=0, timeout=120)
+    ok2, why2, _ = validate_trace(c, "AttachTrace", "AttachTrace.cfg", trows2, "realmaps_att_%s_replay" % label, count=0, timeout=600)
     if ok2 or "P_C06_NeverDivertUnpublished" not in why2:
         c.extra["realmaps_attach_unreproduced"] = trows[:12]
         raise util.ToolError("a start-up with the diverting hook in force alone did not show again; not believed")
